@@ -32,6 +32,17 @@ for p in "${PATCHES[@]}"; do
     [ "$rc" = 1 ] && flagged+=("C$i")
     [ "$rc" = 2 ] && flagged+=("C$i:exit2")
   done
+  if [ "${SAVE_TAPES:-0}" = 1 ]; then
+    # keep the shrunk killing tape of every flagged property as a regression tape
+    tag="$(echo "$name" | sed 's#/patch.diff##; s#.*/##; s#\.patch##')"
+    for i in 01 02 03 04 05 06 07 08 09 10 11 12 13 14 15 16 17; do
+      rp="$(grep -h '^VIOLATION property=' /tmp/vp-mut-C$i.log 2>/dev/null | head -1 | sed 's/.*replay=//')"
+      if [ -n "$rp" ] && [ -f "$rp" ]; then
+        mkdir -p corpus/C$i
+        python3 -c "import json,sys; open(sys.argv[2],'wb').write(bytes.fromhex(json.load(open(sys.argv[1]))['tape']))" "$rp" "corpus/C$i/kills-$tag.bin"
+      fi
+    done
+  fi
   echo "$name: $tests; flagged by: ${flagged[*]:-NONE}"
   git -C /repo checkout -- .
 done
